@@ -2,7 +2,10 @@
 Correspondence of Emission.lean (planck, muOf/wOf, intensity, fluxOf, eclipse, direct) with real EmissionModel /
 DirectImageModel objects built on in-memory cross-sections and CIA, plus the property's own predicates evaluated on
 the implementation: isothermal identity, hot/cold bounds, quadrature sum, direct-image scaling, and equality with an
-independent numpy evaluation of the documented integral (within the licensed exp(-10) clamp band)."""
+independent numpy evaluation of the documented integral (within the licensed exp(-10) clamp band).
+Also: the contribution function `tau` returned by model() / partial_model() vs Emission.contribFn (op c02.contrib) with its
+own predicate (non-negative, layer sum within exp(-10) above 1 - exp(-surface_tau)), and the call sequence of
+partial_model vs Emission.partialModelSteps (op c02.partial)."""
 import math
 import numpy as np
 from harness import common as C
@@ -65,6 +68,17 @@ SRC_SPECS = [
          vec_externals={'self.evaluate_emission_ktables(wngrid, return_contrib)': 'ktables_mu'}),
     dict(_EVAL_ANGLE, lean='evaluate_emission_w', returns_index=2,
          vec_externals={'self.evaluate_emission_ktables(wngrid, return_contrib)': 'ktables_w'}),
+    # component 3 of the tuple `evaluate_emission` returns: the contribution function `tau[layer, wn]` that `model()` hands to
+    # the user (whole arrays along the wavenumber axis, the layer axis explicit; the statements feeding only `I` are sliced away)
+    dict(module=_ME, cls='EmissionModel', func='evaluate_emission', lean='evaluate_emission_tau',
+         params=dict(wngrid='skip', return_contrib='skip'), lens={'wngrid': 'nw'}, vec_len='nw',
+         dialect='np', returns='arr2', returns_index=3, slice=True,
+         attrs={'self.usingKTables': ('usingKTables', 'bool'), 'self.deltaz': ('deltaz', 'arr'),
+                'self.nLayers': ('nLayers', 'nat'), 'self.densityProfile': ('densityProfile', 'arr'),
+                'self._clamp': ('clamp', 's')},
+         vec_externals={'self.evaluate_emission_ktables(wngrid, return_contrib)': 'ktables_tau'},
+         objlists={'self.contribution_list': dict(n='ncontrib', methods={'contribute': dict(
+             lean='contribute', params=list(_CMETH), kinds=_CMETH, inout='tau')})}),
     # the angle quadrature: one wavenumber (point-wise), whole arrays along the angle axis (length ngauss)
     dict(module=_ME, cls='EmissionModel', func='path_integral', lean='path_integral',
          params=dict(wngrid='skip', return_contrib='skip'), vec_len='ngauss', dialect='np', returns='s', returns_index=0,
@@ -72,6 +86,17 @@ SRC_SPECS = [
          tuples={'self.evaluate_emission(wngrid, return_contrib)': [('I', 'arr'), ('mu', 'arr'), ('w', 'arr'),
                                                                     ('tauE', 's')]},
          externals={'self.compute_final_flux': ('final_flux', 1)}),
+    # component 1 of what `path_integral` returns (handed on by `model()` as the contribution function): the `tau` of
+    # `evaluate_emission`, untouched
+    dict(module=_ME, cls='EmissionModel', func='path_integral', lean='path_integral_tau',
+         params=dict(wngrid='skip', return_contrib='skip'), vec_len='ngauss', dialect='np', returns='s', returns_index=1,
+         slice=True, attrs={'np.pi': ('npPi', 's')},
+         tuples={'self.evaluate_emission(wngrid, return_contrib)': [('I', 'arr'), ('mu', 'arr'), ('w', 'arr'),
+                                                                    ('tauE', 's')]},
+         externals={'self.compute_final_flux': ('final_flux', 1)}),
+    # the orchestration of `partial_model` (dialect 'dyn': every call on another object goes to an oracle): which methods it
+    # calls on the model, the star and the contributions, in which order and on which grid
+    dict(module=_ME, cls='EmissionModel', func='partial_model', lean='partial_model', dialect='dyn', keep_self=True),
     # the stellar black body (`black_body` in star.py is the function imported from taurex.util.emission)
     dict(module='taurex/data/stellar/star.py', cls='Star', func='initialize', lean='star_initialize',
          params=dict(wngrid='elem'), consts=_PCONST, attrs={'self.sed': ('sed', 'elem'), 'self.temperature': ('tstar', 's')},
@@ -104,7 +129,14 @@ ASSUMPTIONS = ['np.polynomial.legendre.leggauss(n): nodes in (-1,1), weights > 0
                'it is the subject of C03/C04',
                'rounding: model on Float vs numpy/numba(fastmath) doubles compared to 1e-8 relative',
                'exp(-10) clamp: implementation accepted if equal to the exactly-clamped model, or within the proved band '
-               'exp(-10)*sum_{clamped layers} B(T_l) of the unclamped integral']
+               'exp(-10)*sum_{clamped layers} B(T_l) of the unclamped integral',
+               'contribution function (model()[2], partial_model()[3]) vs Emission.contribFn: a layer whose clamp test '
+               'x.min() < 10 is within 1e-6 of the threshold is not judged (either decision is a rounding outcome)',
+               'source tie of the contribution function: a Python float 0.0 is read as the constant array (numpy '
+               'broadcasting); `if isinstance(_tau, float)` is translated because both branches have one translation',
+               'source tie of partial_model (dyn dialect): the called methods are an oracle that only logs the call; '
+               'checked against the real objects by wrapping initialize_profiles / star.initialize / prepare / '
+               'evaluate_emission with recorders (op c02.partial)']
 
 MOLS = ['H2O', 'CH4', 'CO2', 'CO', 'NH3']
 PC_LIT = (10000 * 1e-6, 1e-6)
@@ -195,9 +227,10 @@ def install(c):
 
 def observe(m):
     """run a (possibly reused) model object; returns everything observed, parameters read back from the object"""
-    I, _mu, _w, _ = m.partial_model()
+    I, _mu, _w, ptau = m.partial_model()
     grid, flux, tau, _ = m.model()
     return dict(I=np.array(I, float), muinv=np.array(_mu, float).ravel(), w=np.array(_w, float).ravel(),
+                tau=np.array(tau, float), ptau=np.array(ptau, float),
                 grid=np.array(grid, float), flux=np.array(flux, float).ravel(),
                 dz=np.array(m.deltaz, float), dens=np.array(m.densityProfile, float),
                 T=np.array(m.temperatureProfile, float), contribs=E.contribution_inputs(m),
@@ -223,9 +256,80 @@ def pc_tokens():
     return [C.F(PI), C.F(H), C.F(CL), C.F(KB), C.F(PC_LIT[0]), C.F(PC_LIT[1])]
 
 
+def trace_partial(m, wngrid, cutoff):
+    """run m.partial_model(wngrid, cutoff) with the methods it is meant to call wrapped by recorders; returns the calls as
+    (kind, a, b) like the model's `c02.partial` (grid ids: 0 native, 1 clipped, 9 anything else), and the clipped grid"""
+    from taurex.util.util import clip_native_to_wngrid
+    native = np.array(m.nativeWavenumberGrid, float)
+    clipped = np.array(clip_native_to_wngrid(native, wngrid), float) if wngrid is not None else None
+    log = []
+
+    def gid(g):
+        g = np.asarray(g, float)
+        if g.shape == native.shape and np.array_equal(g, native):
+            return 0
+        if clipped is not None and g.shape == clipped.shape and np.array_equal(g, clipped):
+            return 1
+        return 9
+
+    undo = []
+
+    def wrap(obj, name, rec):
+        f = getattr(obj, name)
+
+        def w(*a, **k):
+            log.append(rec(*a, **k))
+            return f(*a, **k)
+        setattr(obj, name, w)                      # an instance attribute shadows the method
+        undo.append(lambda: delattr(obj, name))
+    wrap(m, 'initialize_profiles', lambda *a, **k: (0, 0, 0))
+    wrap(m._star, 'initialize', lambda g, *a, **k: (1, gid(g), 0))
+    wrap(m, 'evaluate_emission', lambda g, rc, *a, **k: (3, gid(g), 0) if rc is False else (3, 9, 9))
+    for i, cb in enumerate(m.contribution_list):
+        wrap(cb, 'prepare', lambda mod, g, i=i, **k: (2, i, gid(g)) if mod is m else (2, 9, 9))
+    try:
+        if wngrid is None:
+            m.partial_model()
+        else:
+            m.partial_model(wngrid=wngrid, cutoff_grid=cutoff)
+    finally:
+        for u in undo:
+            u()
+    return log, native, clipped
+
+
+def orchestration(ctx, c, small):
+    """EmissionModel.partial_model calls initialize_profiles, star.initialize, every contribution's prepare and
+    evaluate_emission in the order and on the grid of Emission.partialModelSteps (op c02.partial)"""
+    with E.CacheState():
+        install(c)
+        m = E.build_model(c['kind'], dict(c['spec']))
+        n = len(m.contribution_list)
+        native = np.array(m.nativeWavenumberGrid, float)
+        # a target grid of at least two points (clip_native_to_wngrid needs bin edges) that clips at least one native point
+        sub = native[:max(2, len(native) // 2)]
+        variants = ((None, True),) if len(native) < 3 else ((None, True), (sub, True), (sub, False))
+        for wngrid, cutoff in variants:
+            try:
+                log, native, clipped = trace_partial(m, wngrid, cutoff)
+            except Exception as e:
+                ctx.violation('raises:partial_model', 'partial_model raised %r' % (e,), c)
+                return
+            if wngrid is not None and cutoff and clipped.shape == native.shape:
+                continue                           # the clipped grid cannot be told from the native one here
+            clip = wngrid is not None and bool(cutoff)
+            d = ctx.model().call('c02.partial', C.N(n), C.N(1 if clip else 0))
+            steps = d.list(lambda: (d.nat(), d.nat(), d.nat()))
+            ctx.bucket('partial_model:' + ('clip' if clip else ('wngrid-no-cutoff' if wngrid is not None else 'native')))
+            ctx.check_eq('partial_model call sequence vs Emission.partialModelSteps', [tuple(x) for x in log],
+                         [tuple(x) for x in steps], dict(small, clip=clip, ncontrib=n))
+
+
 def eval_case(ctx, c):
     spec = c['spec']
     kind = c['kind']
+    if spec['nlayers'] % 4 == 0 and not c.get('wn_dtype'):
+        orchestration(ctx, c, dict(kind=kind, nlayers=spec['nlayers'], nwn=len(c['wn'])))
     small = dict(kind=kind, nlayers=spec['nlayers'], ngauss=spec['ngauss'], tclass=c.get('tclass'),
                  regime=c.get('regime'), cia=bool(c.get('cia')), nwn=len(c['wn']))
     if c.get('wn_dtype'):
@@ -314,6 +418,30 @@ def judge(ctx, c, o, small, kp=''):
             v = float(arr.min())
             if abs(v - 10.0) > 1e-6:
                 ctx.check_eq('clamp decision ' + name, bool(v < 10.0), bool(mk), dict(small, layer=l, min=v))
+    # ---- the contribution function `tau[layer, wn]` that model() returns (and partial_model()) vs Emission.contribFn
+    dc = ctx.model().call('c02.contrib', *pc_tokens(), C.L(nus),
+                          C.L(o['contribs'], lambda kc: C.N(kc[0]) + ' ' + C.LL(kc[1].tolist())),
+                          C.L(o['dz']), C.L(o['dens']), C.L(o['T']))
+    mtau = np.array(dc.list(lambda: dc.list())).T.reshape(len(o['T']), len(nus))       # [layer, wn]
+    # a layer whose clamp test is within rounding of the threshold may be decided either way: not judged
+    sure = np.array([abs(float(ref['lt'][l].min()) - 10.0) > 1e-6 and abs(float(ref['dt'][l].min()) - 10.0) > 1e-6
+                     for l in range(len(o['T']))], bool)
+    for name, impl in (('model()[2]', o['tau']), ('partial_model()[3]', o['ptau'])):
+        if impl.shape != mtau.shape:
+            ctx.mismatch('contribution function %s: shape' % name, dict(c, small=small),
+                         dict(impl=impl.shape, model=mtau.shape))
+            continue
+        ctx.check_close('contribution function %s vs Emission.contribFn' % name, impl[sure].ravel(), mtau[sure].ravel(),
+                        small, rel=1e-8, abs_=1e-13)
+    # the property of the contribution function (Props/C02.lean contrib_sum), on the implementation: non-negative, and
+    # the entries of one wavenumber sum to the absorbed fraction of the vertical ray, within exp(-10) above it
+    if o['tau'].shape == mtau.shape and o['tau'].size:
+        tot = o['tau'].sum(axis=0)
+        absorbed = 1.0 - np.exp(-ref['surf'])
+        if np.any(o['tau'] < -1e-12) or np.any(tot < absorbed - 1e-9) or np.any(tot > absorbed + EM10 * (1 + 1e-6) + 1e-9):
+            ctx.violation(kp + 'contribution-function:' + kind,
+                          'contribution function negative or its layer sum not within exp(-10) above 1 - exp(-surface_tau)',
+                          dict(c, small=small), dict(tot=tot, absorbed=absorbed, min=float(o['tau'].min())))
     # ---- the property's own predicates, on the implementation --------------------------------------------
     predicates(ctx, c, o, ref, small, kp)
 
